@@ -272,7 +272,7 @@ func (n *node[T]) popLeftMost() (child, leftMost *node[T]) {
 	newLeft, popped := n.left.popLeftMost()
 	n.left = newLeft
 	n.height = n.calcHeight()
-	return n, popped
+	return n.rebalance(), popped
 }
 
 func (n *node[T]) add(value T, compare func(a, b T) int) *node[T] {
@@ -293,17 +293,18 @@ func (n *node[T]) add(value T, compare func(a, b T) int) *node[T] {
 			n.right = n.right.add(value, compare)
 		}
 	}
+	n.height = n.calcHeight()
 	return n.rebalance()
 }
 
 func (n *node[T]) rebalance() *node[T] {
 	if n.balance() == balanceRightHeavy {
-		if n.right != nil && n.right.balance() == balanceLeftHeavy {
+		if n.right != nil && n.right.leftHeight() > n.right.rightHeight() {
 			return n.rotateLeftRight()
 		}
 		return n.rotateLeft()
 	} else if n.balance() == balanceLeftHeavy {
-		if n.left != nil && n.left.balance() == balanceRightHeavy {
+		if n.left != nil && n.left.rightHeight() > n.left.leftHeight() {
 			return n.rotateRightLeft()
 		}
 		return n.rotateRight()
@@ -325,14 +326,14 @@ func (n *node[T]) balance() balanceFactor {
 
 func (n *node[T]) leftHeight() int {
 	if n.left == nil {
-		return 0
+		return -1
 	}
 	return n.left.height
 }
 
 func (n *node[T]) rightHeight() int {
 	if n.right == nil {
-		return 0
+		return -1
 	}
 	return n.right.height
 }
